@@ -3891,6 +3891,9 @@ where
                     self.pingresp_recv_set = false;
                     events.push(GenericEvent::RequestTimerCancel(TimerKind::PingrespRecv));
                 }
+                // (only a role-Any connection that received the CONNECT gets here with a
+                // keep-alive receive timeout: like every accepted packet it re-arms the timer)
+                events.extend(self.refresh_pingreq_recv());
                 events.push(GenericEvent::NotifyPacketReceived(packet.into()));
             }
             Err(e) => {
@@ -3913,6 +3916,9 @@ where
                     self.pingresp_recv_set = false;
                     events.push(GenericEvent::RequestTimerCancel(TimerKind::PingrespRecv));
                 }
+                // (only a role-Any connection that received the CONNECT gets here with a
+                // keep-alive receive timeout: like every accepted packet it re-arms the timer)
+                events.extend(self.refresh_pingreq_recv());
                 events.push(GenericEvent::NotifyPacketReceived(packet.into()));
             }
             Err(e) => {
